@@ -360,16 +360,19 @@ func (b *Buffer) grow(n int) {
 
 	// TODO(chef): 可以先尝试是否能挪出空闲位置
 
-	var newLen int
-	if cap(b.core) == 0 {
+	// 注意，翻倍一次不一定够用（比如publish信令中携带很长的url参数），需要一直翻倍到能容纳下`n`字节为止
+	need := b.Len() + n
+	newLen := cap(b.core) * 2
+	if newLen == 0 {
 		newLen = 128
-	} else {
-		newLen = cap(b.core) * 2
+	}
+	for newLen < need {
+		newLen *= 2
 	}
 	buf := make([]byte, newLen)
 	Log.Debugf("Buffer::grow. need=%d, old len=%d, cap=%d, new len=%d", n, b.Len(), cap(b.core), newLen)
-	copy(buf, b.core[b.readPos:b.writePos])
+	l := copy(buf, b.core[b.readPos:b.writePos])
 	b.core = buf
 	b.readPos = 0
-	b.writePos = b.writePos - b.readPos
+	b.writePos = l
 }
